@@ -132,8 +132,28 @@ def run(chk):
             continue
         # appended, other form: len(colors) read before the push (the index the new element is about to get)
         if x[0] == "len" and field_chain(x[1])[1][-1:] == ["colors"] and pushes:
-            lens = [cb for cb, t in b.calls() if (t["callee"].get("resolved") or "").endswith("::len") and b.dominates(cb, pushes[0]) and cb != pushes[0]]
-            ok = bool(lens) and b.dominates(pushes[0], bi)
+            # the very len() call whose result is returned must come before the push
+            def len_call_block(l, depth=0):
+                ds = b.defs.get(l, [])
+                if len(ds) != 1 or depth > 4:
+                    return None
+                if ds[0][1] == "term":
+                    t_ = b.blocks[ds[0][0]]["term"]
+                    return ds[0][0] if (t_["callee"].get("resolved") or "").endswith("::len") else None
+                rv_ = b.blocks[ds[0][0]]["stmts"][ds[0][1]]["rv"]
+                if rv_["k"] in ("use", "cast"):
+                    pj_ = rv_["a"].get("move") or rv_["a"].get("copy")
+                    if pj_ is not None and not pj_.get("p"):
+                        return len_call_block(pj_["l"], depth + 1)
+                return None
+            cb = None
+            for bj, kj in b.defs.get(0, []):
+                if bj == bi and kj != "term":
+                    rv0 = b.blocks[bj]["stmts"][kj]["rv"]
+                    pj0 = (rv0["a"].get("move") or rv0["a"].get("copy")) if rv0["k"] in ("use", "cast") else None
+                    if pj0 is not None and not pj0.get("p"):
+                        cb = len_call_block(pj0["l"])
+            ok = cb is not None and cb != pushes[0] and b.dominates(cb, pushes[0]) and b.dominates(pushes[0], bi)
             appended_ok = ok
             chk.obligation(ok)
             if not ok:
